@@ -308,6 +308,8 @@ def execute(w, keep=False, timeout=30):
             args += ["--crash", "%d,%d" % w.crash]
         if getattr(w, "sched", None) is not None:
             args += ["--sched", str(w.sched)]
+        if getattr(w, "partial", None) is not None:
+            args += ["--partial", "%d,%d" % w.partial]
         try:
             p = subprocess.run(args, cwd=root, stdout=subprocess.PIPE, stderr=subprocess.PIPE, timeout=timeout)
             out, rc = p.stdout.decode("utf-8", "replace"), p.returncode
@@ -367,7 +369,7 @@ def parse_output(r):
                     h, segs = cur.pop(thread)
                     r.solves.append((thread, h, segs, t[3]))
                     # did a file operation of this worker fail while it evaluated this piece?
-                    r.piece_failed.append(any(op[0] == thread and op[4] == "err" for op in r.ops[opstart.get(thread, 0):]))
+                    r.piece_failed.append(any(op[0] == thread and (op[4] == "err" or op[4].startswith("part")) for op in r.ops[opstart.get(thread, 0):]))
             elif t[0] == "crash":
                 r.crashed = (int(t[1]), int(t[2]))
     for thread, (h, segs) in sorted(cur.items()):
@@ -378,6 +380,8 @@ def parse_output(r):
 
 def op_tokens(op):
     thread, kind, path, extra, ok = op
+    if ok.startswith("part"):
+        ok = "err"
     if kind == "write":
         return [kind, ptok(path), extra[0], extra[1], "ok" if ok == "ok" else "err"]
     if kind in ("setlen", "seek"):
@@ -411,7 +415,8 @@ def build_lines(r):
     req += ["O", str(len(r.solves))]
     for thread, h, segs, outcome in r.solves:
         req += [str(len(segs))] + [str(x) for s in segs for x in s] + [h]
-    req += ["X", str(len(w.faults))] + [str(f) for f in w.faults]
+    allfaults = list(w.faults) + ([w.partial[0]] if getattr(w, "partial", None) is not None else [])
+    req += ["X", str(len(allfaults))] + [str(f) for f in allfaults]
     # ground truth per metadata entry id: torrents sorted by info-hash, duplicates dropped, files in order
     truth = []
     seen = set()
@@ -426,6 +431,8 @@ def build_lines(r):
     req += ["G", str(len(truth))] + [x for e, c in truth for x in (str(e), hx(c))]
     req += ["U", str(len(r.solves))] + [outcome for thread, h, segs, outcome in r.solves]
     req += ["V", str(len(r.piece_failed))] + ["1" if x else "0" for x in r.piece_failed]
+    pw = sorted({op[2] for op in r.ops if op[4].startswith("part") and op[4] != "part0"})
+    req += ["W", str(len(pw))] + [ptok(p) for p in pw]
     if w.crash is not None:
         req += ["K", str(w.crash[0]), str(w.crash[1])]
     ops = [op for op in r.ops if op[4] != "cut"]
